@@ -247,6 +247,9 @@ Section Tracker.
     let calls := fst (proto bs (range_of order (ND s)) resps) in
     (fold_left pd_apply (applied_of calls) s, calls).
 
+  (* DeltaTracker.InSync / SetDeltaTracker.InSync *)
+  Definition in_sync (s : st) : bool := Z.eqb (pd_len s) 0 && Z.eqb (pu_len s) 0.
+
   (* SetDeltaTracker's DesiredSetView.LenUpperBound *)
   Definition len_upper_bound (s : st) : Z := (len (AD s) + len (DU s))%Z.
 
